@@ -61,7 +61,7 @@ func (t Truth) index() map[[2]float64]vertexRef {
 	m := map[[2]float64]vertexRef{}
 	for r, rg := range t.Rings() {
 		for v, p := range rg {
-			m[[2]float64{p.Lon(), p.Lat()}] = vertexRef{r, v}
+			m[[2]float64{t.Lon(p), t.Lat(p)}] = vertexRef{r, v}
 		}
 	}
 	return m
@@ -73,6 +73,10 @@ func (t Truth) index() map[[2]float64]vertexRef {
 // CW by the integer shoelace formula on the grid points). It returns the
 // ring number.
 func (t Truth) identifyRing(idx map[[2]float64]vertexRef, got orb.Ring, wantWinding int, what string) (int, *Mismatch) {
+	return identifyRing(t.Rings(), idx, got, wantWinding, what)
+}
+
+func identifyRing(rings []Ring, idx map[[2]float64]vertexRef, got orb.Ring, wantWinding int, what string) (int, *Mismatch) {
 	if len(got) < 4 {
 		return -1, mis("ring-closed", "%s has %d points", what, len(got))
 	}
@@ -80,7 +84,6 @@ func (t Truth) identifyRing(idx map[[2]float64]vertexRef, got orb.Ring, wantWind
 		return -1, mis("ring-closed", "%s is not closed: first %v last %v", what, got[0], got[len(got)-1])
 	}
 	open := got[:len(got)-1]
-	rings := t.Rings()
 	ringNo := -1
 	seq := make([]int, 0, len(open))
 	pts := make([]Pt, 0, len(open))
@@ -128,6 +131,27 @@ func (t Truth) identifyRing(idx map[[2]float64]vertexRef, got orb.Ring, wantWind
 // vertex exactly once per ring and no other coordinate. A single polygon may
 // be given as orb.Polygon or as a one-element orb.MultiPolygon.
 func Compare(t Truth, g orb.Geometry) *Mismatch {
+	return NewComparer(t).Compare(g)
+}
+
+// Comparer is Compare with the truth's tables built once (the location index
+// of its vertices, its ring list): NewComparer(t).Compare(g) == Compare(t, g).
+// A Comparer is read-only after construction and may be shared by goroutines.
+type Comparer struct {
+	t     Truth
+	idx   map[[2]float64]vertexRef
+	rings []Ring
+	refs  []RingRef
+}
+
+// NewComparer prepares the comparison of geometries with t.
+func NewComparer(t Truth) *Comparer {
+	return &Comparer{t: t, idx: t.index(), rings: t.Rings(), refs: t.Refs()}
+}
+
+// Compare: see the function Compare.
+func (cm *Comparer) Compare(g orb.Geometry) *Mismatch {
+	t := cm.t
 	var polys []orb.Polygon
 	switch v := g.(type) {
 	case orb.Polygon:
@@ -140,8 +164,8 @@ func Compare(t Truth, g orb.Geometry) *Mismatch {
 		return mis("geometry-type", "geometry is a %s", g.GeoJSONType())
 	}
 
-	idx := t.index()
-	refs := t.Refs()
+	idx := cm.idx
+	refs := cm.refs
 	ringOf := func(poly, hole int) int { // ring number
 		for i, r := range refs {
 			if r.Polygon == poly && r.Hole == hole {
@@ -155,7 +179,7 @@ func Compare(t Truth, g orb.Geometry) *Mismatch {
 		if len(p) == 0 {
 			return mis("polygon-empty", "polygon %d has no ring", pi)
 		}
-		rn, m := t.identifyRing(idx, p[0], +1, fmt.Sprintf("outer ring of polygon %d", pi))
+		rn, m := identifyRing(cm.rings, idx, p[0], +1, fmt.Sprintf("outer ring of polygon %d", pi))
 		if m != nil {
 			return m
 		}
@@ -169,7 +193,7 @@ func Compare(t Truth, g orb.Geometry) *Mismatch {
 		tp := refs[rn].Polygon
 		seenHole := map[int]bool{}
 		for hi := 1; hi < len(p); hi++ {
-			hn, m := t.identifyRing(idx, p[hi], -1, fmt.Sprintf("hole %d of polygon %d", hi, pi))
+			hn, m := identifyRing(cm.rings, idx, p[hi], -1, fmt.Sprintf("hole %d of polygon %d", hi, pi))
 			if m != nil {
 				return m
 			}
